@@ -135,6 +135,23 @@ def run(ctx, rep):
         c09.r_cache(ctx.flow, sh, rep)
 
     rep.guarded("R09-CACHE", cache)
+    rep.rule("R01-HELDTYPES", "AirTree::mut_held_types exposes every type a node carries (monomorphisation rewrites exactly what this function hands out)", floor=20)
+
+    def heldtypes():
+        TREE = "crates/aiken-lang/src/gen_uplc/tree.rs"
+        fj = sh.file(TREE)
+        en = find_enum(fj, "AirTree")
+        f = find_method(fj, "AirTree", "mut_held_types")
+        traversal_check(rep, "R01-HELDTYPES", sh, TREE, "AirTree::mut_held_types", f, en, ["Type"])
+
+    rep.guarded("R01-HELDTYPES", heldtypes)
+    rep.rule("R02-SATURATED", "optimiser rewrites keyed on argument position test that the builtin is saturated (shared with C02)", floor=2)
+
+    def saturated():
+        from . import c02
+        c02.r_saturated(sh, rep)
+
+    rep.guarded("R02-SATURATED", saturated)
     rep.rule("R01-TYPEKEY", "decoder-cache keys (push_type_identity) start with a tag that is unique per type constructor", floor=4)
     rep.guarded("R01-TYPEKEY", lambda: r_typekey(sh, rep))
 
